@@ -9,7 +9,8 @@
      D25_step  the same in LOGON_INITIAL_RECV, where an acceptor stays when its Logon handling raised
      D27       a non-numeric MsgSeqNum raises ValueError out of _process_message (C11_garbled_seqnum_refuted)
    C11_integrity_* assume `sendable w`: the Logout can be written and journaled (writer present, no outbound
-   journal row numbered next_num_out, number within SQLite's range); ledger D12 / D20 break that. *)
+   journal row numbered next_num_out, number within SQLite's range); ledger D20 breaks that
+   (Out_inv of C05 implies it; D12 is repaired in the code). *)
 From Coq Require Import ZArith NArith List Bool.
 From AF Require Import Base.Sx Py.Str Fix.Session Lemmas.SessionL Lemmas.SessionC04L Lemmas.SessionC11L.
 Import ListNotations.
